@@ -1,5 +1,10 @@
 import PgsVerif.Model.GoNames
-import PgsVerif.Generated.Code
+import PgsVerif.Generated.Code_context_ClientName
+import PgsVerif.Generated.Code_context_ServerName
+import PgsVerif.Generated.Code_context_ServerStream
+import PgsVerif.Generated.Code_go_joinChild
+import PgsVerif.Generated.Code_go_joinNames
+import PgsVerif.Generated.Code_go_replaceProtected
 /-!
 # Tie (translated code): the name-joining helpers of lang/go/name.go
 
